@@ -27,7 +27,7 @@ vh::Outcome run_tw(const vh::Case& c) {
     rob::deflt()->vrt_reset(false);
     vh::Outcome out;
     bool begun[NL] = {false}, done[NL] = {false};
-    bool lbl_seen_true_concurrent = false, lbl_moved = false, lbl_datum_read = false, lbl_oor = false;
+    bool lbl_seen_true_concurrent = false, lbl_moved = false, lbl_datum_read = false, lbl_oor = false, lbl_shared_det = false;
     int triggers_in_flight = 0;
     out.res = vrt::run(c.sched, [&] {
         std::vector<gc::TriplineType> lines = gc::make_triplines(6);
@@ -48,6 +48,9 @@ vh::Outcome run_tw(const vh::Case& c) {
             if (begun[l]) return;
             if (make_detector(l).isTripped()) vrt::fail("tripped-without-trigger", std::string("line reports tripped ") + when + " although no armed trigger on it was destroyed");
         };
+        // detector objects shared by all fibers (the library itself shares one detector between threads in DelayedDestructor / SearchableObjectHolder)
+        std::vector<gc::TripWireDetector> shared_det;
+        for (int l = 0; l < NL; ++l) shared_det.push_back(make_detector(l));
         for (size_t i = 0; i < c.fibers.size() && i < 4; ++i) {
             if (c.fibers[i].empty()) continue;
             vrt::spawn([&, i] {
@@ -82,7 +85,9 @@ vh::Outcome run_tw(const vh::Case& c) {
                     } else if (kind <= 6) {
                         // ---------------------------------------------------- detector polling any line
                         int l = op.a % NL;
-                        gc::TripWireDetector d = make_detector(l);
+                        gc::TripWireDetector own = make_detector(l);
+                        const gc::TripWireDetector& d = (op.b & 4) ? shared_det[(size_t)l] : own;
+                        if (op.b & 4) lbl_shared_det = true;
                         for (int k = 0; k <= op.b % 4; ++k) {
                             bool was_done = done[l];
                             bool t = d.isTripped();
@@ -120,6 +125,7 @@ vh::Outcome run_tw(const vh::Case& c) {
     if (lbl_moved) out.labels.push_back("moved-trigger");
     if (lbl_datum_read) out.labels.push_back("datum-read-after-trip");
     if (lbl_oor) out.labels.push_back("out-of-range");
+    if (lbl_shared_det) out.labels.push_back("shared-detector-object");
     if (c.sched.weak) out.labels.push_back("weak");
     if (out.res.stale_reads) out.labels.push_back("stale-read-taken");
     out.nontrivial = lbl_datum_read && (lbl_seen_true_concurrent || lbl_moved);
